@@ -289,6 +289,10 @@ def run(prog, rep):
                   "%s is called with %s: whitespace-only text of pretty-printed files reaches the value folding" % (call_name(c), t), where(px0, c),
                   witness="a pretty printed 1.0 file with an attribute-only <value> after a <value> with text converts to '[1,,3]'")
 
+    # the parser accepts every well-formed source: no option that overrides the declared encoding or repairs broken text silently
+    from .c16 import xml_parser_options
+    xml_parser_options(prog, rep, "PARSE-1", ("encoding", "recover"), module="odml.tools.converters.version_converter")
+
     # ----------------------------------------------------------------- MAP-1
     rep.rule("MAP-1", "_replace_same_name_entities passes different map objects to _change_entity_name for Section names and for "
                       "Property names, and clears the Property map once per Section")
